@@ -611,6 +611,8 @@ class _VQueueShell:
     self.maxsize = maxsize
     self._init(maxsize)
     self.unfinished_tasks = 0
+    # the documented internals of queue.Queue that code may reach for (`with q.mutex:`)
+    self.mutex = VLock()
 
   def qsize(self):
     sched().point()
